@@ -147,6 +147,27 @@ def bounded(pb, interp, rng, tier):
                 fail("BaseReader.dask_read", "lazy", f"{name} {rq}", type(zd.data).__name__)
             elif not np.array_equal(np.asarray(zd.data.compute()), ref[rq]) or zd.start_time != r.read(*rq).start_time:
                 fail("BaseReader.dask_read", "dask==eager", f"{name} {rq}", "differs")
+        # Dask reads equal eager reads whatever chunking the caller asks for -- also along time (for real-sampled
+        # files the Hilbert conversion is of the whole request, not of each chunk)
+        rqc = seq[0]
+        for chunks in ((max(1, rqc[1] // 3),) + (-1,) * (ref[rqc].ndim - 1), (7,) + (1,) * (ref[rqc].ndim - 1)):
+            ev += 1
+            try:
+                zc = r.dask_read(*rqc, chunks=chunks)
+                vc = np.asarray(zc.data.compute(scheduler="synchronous"))
+                if vc.shape != ref[rqc].shape or not np.allclose(vc, ref[rqc], rtol=0, atol=1e-5 * max(1.0, float(np.abs(ref[rqc]).max(initial=0.0)))):
+                    fail("BaseReader.dask_read", "dask==eager.time-chunked", f"{name} {rqc} chunks={chunks}", "a Dask read chunked along time differs from the eager read")
+            except Exception as ex_:
+                fail("BaseReader.dask_read", "dask==eager.time-chunked.raises", f"{name} {rqc} chunks={chunks}", f"{type(ex_).__name__}: {str(ex_)[:100]}")
+        # ... and under the process scheduler (everything a lazy read carries must survive pickling)
+        if name in ("vdif-real-usb", "dada-complex", "guppi", "dada-stokes"):
+            ev += 1
+            try:
+                vp_ = np.asarray(r.dask_read(*seq[0]).data.compute(scheduler="processes", num_workers=2))
+                if not np.array_equal(vp_, ref[seq[0]]):
+                    fail("BaseReader.dask_read", "dask==eager.process-scheduler", f"{name} {seq[0]}", "differs from the eager read")
+            except Exception as ex_:
+                fail("BaseReader.dask_read", "dask==eager.process-scheduler.raises", f"{name} {seq[0]}", f"{type(ex_).__name__}: {str(ex_)[:100]}")
         # reads are stateless: what the caller does to a returned signal does not change later reads
         ev += 1
         try:
